@@ -257,6 +257,11 @@ def run(pid, build_replay):
             meta.append(("tot", False, f"expected type is the service constructor {cls}"))
             cmds.append(f"rds 4449444c0000 {defs} {cls}")
             meta.append(("tot", False, f"no value on the wire, expected type is the service constructor {cls}"))
+    # deep reference types on threads whose stack ends at different places: whichever frame meets the recursion guard,
+    # the decoder returns (an error, or a value by the opt rule) -- it does not panic
+    for kb in range(256, 1025, 32):
+        cmds.append(f"deep 3000 {kb}")
+        meta.append(("deep", None, f"a 3000-deep reference type on a {kb} KiB stack"))
     p = subprocess.run([exe], input="\n".join(cmds) + "\n", capture_output=True, text=True, timeout=1800)
     outs = [l.strip() for l in p.stdout.splitlines()]
     if len(outs) != len(cmds):
@@ -265,16 +270,18 @@ def run(pid, build_replay):
     npos = sum(1 for k, w_ok, _ in meta if k == "sub" and w_ok)
     for cmd, (kind, want_ok, what), o in zip(cmds, meta, outs):
         got_ok = o == "ok"
+        if kind == "deep" and o in ("ok", "err"):
+            continue
         if o not in ("ok", "err") or got_ok != want_ok:
             ob = ("reference accepted exactly when its wire type is a subtype of the expected type" if kind == "sub"
-                  else "decoding returns a value or an error for every expected type (no panic)" if kind == "tot"
+                  else "decoding returns a value or an error for every expected type (no panic)" if kind in ("tot", "deep")
                   else "ill-formed type table is rejected")
             failures.append({
                 "obligation": "bounded-standin::decode::" + ob, "unit": "bounded-standin", "item": "decoder (header + reference types)",
                 "fn": "decode", "kind": "bounded-standin", "file": "rust/candid/src/binary_parser.rs", "line": 0, "source_text": "", "clause": None,
-                "verifier_message": f"{what}: expected {'ok' if want_ok else 'err'}, got {o}",
+                "verifier_message": f"{what}: expected {'ok or err' if want_ok is None else 'ok' if want_ok else 'err'}, got {o}",
                 "witness": {"confirmed": True, "function": "candid::IDLArgs::from_bytes_with_types", "input": cmd[:700],
-                            "expected": ("ok" if want_ok else "err") + f"  ({what})", "got": o, "replay_cmd": f"echo '{cmd}' | {exe}"}})
+                            "expected": ("ok or err" if want_ok is None else "ok" if want_ok else "err") + f"  ({what})", "got": o, "replay_cmd": f"echo '{cmd}' | {exe}"}})
             if len(failures) >= 3:
                 break
     return {"failures": failures, "undecided": [], "obligations": 0, "discharged": 0, "trusted": [],
